@@ -512,7 +512,7 @@ static void addFamily(const char * fam, std::vector<Config> (*gen)(int), int bou
 				const Config & cfg = mine[ci];
 				if(ctx.samples.size() < ctx.maxSamples) ctx.samples.push_back(cfg.name());
 				// 4-thread configurations are explored one preemption shallower (their schedule space is ~40x larger)
-				int cfgBound = cfg.threads.size() >= 4 ? std::min(bound, 2) : bound;
+				int cfgBound = cfg.threads.size() >= 4 ? std::min(bound, 2) : (cfg.threads.size() <= 2 && tier >= 1 ? bound + 1 : bound);   // 2-thread configurations one deeper in the thorough tier
 				DfsResult r = dfs(ctx, cfgBound, [&]() {
 					ctx.ex.choose(1000, 1000, K_OP);   // consumes the forced configuration index
 					Run run(ctx, cfg);
